@@ -6,20 +6,19 @@ from .common import *
 from .tables import is_true, is_false, pin
 
 EXPLANATION = (
-    'Static clauses: (R1) the two square->bonus-index tables are permutations of 0..63 and mirror images of each '
-    'other (const-evaluated tables); (R2) board_material_score = f(White) - f(Black) with all other arguments '
-    'equal; in f the colour parameter is used only to select the piece set and the index mapping; the amount one '
-    'piece adds (read off the accumulation, whichever loop / fold / table / function form produces it) is evaluated'
-    " on its whole domain 6 kinds x 64 squares x 2 phases for both colours: White's value on s equals Black's on "
-    'the rotated square 63 - s, and a piece is counted iff the bit of its square is set in its piece set; (R3) '
-    "is_endgame's truth table over its atoms is invariant under swapping the colours; (R4) interval bound "
-    'recomputed from the constants: for legal material the score magnitude stays below every mate score and inside '
-    'i16; (R5) the mate branch returns BLACK_WINS - d for a mated White and WHITE_WINS + d for a mated Black '
-    '(strictly monotone in remaining depth d, inside i16 for d <= 255, u8 -> i16 cast lossless), stalemate/draw '
-    'return 0 - decided by evaluating the returned term for every remaining depth 0..255 per scored colour -, and '
-    'every value score returns is one of these or the material score of this board (no remembered value). The '
-    'numeric equality score(mirror(p)) == -score(p) follows from R1-R3 by a symmetry argument that is stated, not '
-    'mechanically checked.'
+    'Static clauses: (R1) the two square->bonus-index tables are permutations of 0..63 and mirror images of each other (const-evaluated'
+    ' tables); (R2) board_material_score = f(White) - f(Black) with all other arguments equal; in f the colour parameter is used only '
+    'to select the piece set and the index mapping; the amount one piece adds (read off the accumulation, whichever loop / fold / table'
+    " / function form produces it) is evaluated on its whole domain 6 kinds x 64 squares x 2 phases for both colours: White's value on "
+    "s equals Black's on the rotated square 63 - s, and a piece is counted iff the bit of its square is set in its piece set; (R3) "
+    "is_endgame's truth table over its atoms is invariant under swapping the colours; (R4) interval bound recomputed from the "
+    'constants: for legal material the score magnitude stays below every mate score and inside i16; (R5) the mate branch returns '
+    'BLACK_WINS - d for a mated White and WHITE_WINS + d for a mated Black (strictly monotone in remaining depth d, inside i16 for d <='
+    ' 255, u8 -> i16 cast lossless), stalemate/draw return 0 - decided by evaluating the returned term for every remaining depth 0..255'
+    ' per scored colour -, and every value score returns is one of these or the material score of this board (no remembered value). The'
+    ' numeric equality score(mirror(p)) == -score(p) follows from R1-R3 by a symmetry argument that is stated, not mechanically '
+    'checked. (R6) the verdict (mate / stalemate / draw) that selects the branch is computed from this board and the side to move on '
+    "this call (game_ending's inputs), not taken from a stored value."
 )
 ASSUMPTIONS = [
     "legal material: one king per side, at most 8 pawns-or-promoted pieces plus the initial complement",
